@@ -118,6 +118,43 @@ theorem resume_returns_when_closed (P : Par) (s : CS) (e : Tid × Bool) (he : s.
     rw [this.2] at hc; cases hc
   | some r => simp [tids]
 
+/-! ### the oracle's quiescence function takes LTS steps only and ends with nobody woken -/
+
+theorem enter_woken (k : Kind) (sh : Shape) (t : Tid) (a : Bool) (s : CS) : (enter k sh t a s).woken = s.woken := by
+  unfold enter; cases attempt k sh a s.q <;> rfl
+
+theorem resume_head (P : Par) (s : CS) (e : Tid × Bool) (r : List (Tid × Bool)) (hw : s.woken = e :: r) :
+    ∃ s', step P s (.resume e.1) = some s' ∧ s'.woken = r := by
+  have hf : s.woken.find? (fun x => x.1 == e.1) = some e := by rw [hw]; simp
+  have hstep : step P s (.resume e.1) =
+      some (enter P.kind P.sh e.1 e.2 { s with woken := s.woken.erase e }) := by simp only [step, hf]
+  refine ⟨_, hstep, ?_⟩
+  rw [enter_woken]; simp [hw]
+
+theorem settle_reach (P : Par) (q0 : LQ) : ∀ (n : Nat) (s : CS), (lts P q0).Reach s → (lts P q0).Reach (settle P n s)
+  | 0, _, h => h
+  | n + 1, s, h => by
+    unfold settle
+    cases hw : s.woken with
+    | nil => exact h
+    | cons e r =>
+      obtain ⟨s', hs, _⟩ := resume_head P s e r hw
+      simp only [hs]
+      exact settle_reach P q0 n s' (LTS.Reach.step (m := lts P q0) (a := .resume e.1) h hs)
+
+theorem settle_quiescent (P : Par) : ∀ (n : Nat) (s : CS), s.woken.length ≤ n → (settle P n s).woken = []
+  | 0, s, h => by
+    unfold settle
+    exact List.eq_nil_of_length_eq_zero (Nat.le_zero.1 h)
+  | n + 1, s, h => by
+    unfold settle
+    cases hw : s.woken with
+    | nil => exact hw
+    | cons e r =>
+      obtain ⟨s', hs, hr⟩ := resume_head P s e r hw
+      simp only [hs]
+      exact settle_quiescent P n s' (by rw [hr]; rw [hw] at h; simp at h; omega)
+
 /-- **PriQueue: the wait channel is readable beside a non-empty queue.** In every reachable state in which the
     queue is non-empty, no `Push`/`Pop` is between its unlock and its signal, and no consumer holds a received
     signal it has not yet followed by a `Pop`, the channel holds its element. All interleavings of the locked
